@@ -241,6 +241,16 @@ SCOPES = {
         mutable=[P("a"), P("a2"), P("a3"), P("d", "a4")],
         init_creates=[P()],
     ),
+    # a whole directory renamed / moved into another directory (its files all move at once), alone and together with a
+    # single-file rename, sealed with and without -dr
+    "rendir": dict(
+        fmts=["md5"], files=[P("a"), P("a2"), P("d", "b"), P("d", "c"), P("e", "b"), P("e", "c"), P("g", "e", "b"), P("g", "e", "c")],
+        dirs=[P("d"), P("e"), P("g"), P("g", "e")],
+        init={P("a"): "c1", P("d"): "DIR", P("d", "b"): "c2", P("d", "c"): "c3", P("g"): "DIR"}, contents=["c1", "c2", "c3"],
+        roots=[P()], fmtchoices=[["md5"]], pats=[()], sf=[],
+        ops=["rename", "renamedir", "create", "verify", "diff", "dr"], maxgens=4, maxops=6, keepsnap=True,
+        mutable=[P("a"), P("a2"), P("d"), P("e"), P("g", "e")], init_creates=[P()],
+    ),
     # a rename recorded by the root history while a nested history holds a file with the same relative path as the new name
     "rennest": dict(
         fmts=["md5"], files=[P("a"), P("a2"), P("d", "a2")], dirs=[P("d")],
